@@ -72,8 +72,8 @@ type tally struct {
 	evaluations int
 	children    int
 	notFired    int
-	spurious    int // fault runs with additional, not enumerated machine losses
-	bootFired map[string]bool // program|ordinals|variant of fired boot-loss cases
+	spurious    int             // fault runs with additional, not enumerated machine losses
+	bootFired   map[string]bool // program|ordinals|variant of fired boot-loss cases
 	// spaced-losses histories
 	scenarioRuns, scenarioRounds, scenarioKills int
 	scenarioFull                                map[string]bool // histories in which all rounds ran with both kills
